@@ -293,7 +293,7 @@ def enum_cells(tier):
 
 def strat_hist(tier):
     op = st.one_of(st.tuples(st.just("push"), st.sampled_from([r for r in REPLACEMENTS]), st.sampled_from(["object", "string"])).map(list),
-                   st.just(["pop"]), st.just(["pop"]), st.tuples(st.just("call"), st.lists(st.integers(0, 4), min_size=1, max_size=2), st.booleans()).map(list))
+                   st.just(["pop"]), st.just(["pop"]), st.just(["stopall"]), st.tuples(st.just("call"), st.lists(st.integers(0, 4), min_size=1, max_size=2), st.booleans()).map(list))
     return st.fixed_dictionaries({"target": st.sampled_from(TARGETS), "ops": st.lists(op, min_size=2, max_size=10 if tier == "quick" else 20)})
 
 
@@ -334,6 +334,14 @@ def check_hist(case, ctx):
                 want = stack[-1][1] if stack else original
                 if owner.__dict__[attr] is not want:
                     bad("restore", "after leaving nesting level %d the attribute is %r, expected the %s" % (len(stack) + 1, owner.__dict__[attr], "enclosing replacement" if stack else "original object"))
+            elif op[0] == "stopall":
+                if not stack:
+                    continue
+                n_levels = len(stack)
+                patch.stopall()
+                del stack[:]
+                if owner.__dict__[attr] is not original:
+                    bad("restore", "after patch.stopall() with %d overlapping started patches the attribute is %r, not the original object" % (n_levels, owner.__dict__[attr]))
             else:
                 args = tuple(op[1])
                 kwargs = {"k": 9} if op[2] else {}
@@ -363,6 +371,7 @@ def check_hist(case, ctx):
             bad("restore", "after every patch ended the attribute is not the original object")
         sys.modules.pop("c19_target_mod", None)
     ctx.label("depth>=2", depth_max >= 2)
+    ctx.label("stopall-with-overlap", any(o[0] == "stopall" for o in case["ops"]) and depth_max >= 2)
     ctx.label("target=" + target)
     ctx.nontrivial(case, depth_max >= 1)
     return viol
